@@ -542,6 +542,33 @@ def exec_sigcodec(case):
             "x": {"r": hex(r), "s": hex(s), "detail": detail, "pred": case["predParse"], "der": case["der"], "inwin": case["inwin"], "case": case}}
 
 
+def ref_sigcodec(case):
+    """The observation of exec_sigcodec as the REFERENCE codec (lib.refpk, pure Python) makes it: same integers, same fields, nothing
+    of SPSDK is called.  Canary only: the known-good observation must not depend on the tree under test (a defect of SPSDK that hits
+    the canary's input is a violation of the main run, never a machinery failure)."""
+    curve, c = case["curve"], case["c"]
+    r_ = rng(PROP, "sigcodec", curve, case["lr"], case["tr"], case["ls"], case["ts"])
+    r, s = mk_int(curve, case["lr"], case["tr"], r_), mk_int(curve, case["ls"], case["ts"], r_)
+    bits = refpk.CURVES[curve]["bits"]
+    raw_ref, der_ref = enc_rs(bits, "raw", r, s), refpk.der_sig(r, s)
+
+    def same(ok):
+        return "same" if ok else "wrong"
+
+    raw_rs, der_rs = sig_rs("ecc", bits, "raw", raw_ref), refpk.der_sig_decode(der_ref)
+    o = {}
+    o["rl"], o["r0"] = prof_of(r)
+    o["sl"], o["s0"] = prof_of(s)
+    o["rawLen"], o["rawOk"] = len(raw_ref), raw_rs == (r, s)
+    o["derLen"], o["derOk"] = len(der_ref), der_rs == (r, s)
+    o["pRaw"], o["pDer"] = same(raw_rs == (r, s)), same(der_rs == (r, s))
+    d2r, r2d = enc_rs(bits, "raw", *der_rs), enc_rs(bits, "der", *raw_rs)
+    o["d2r"], o["r2d"], o["cd2r"] = same(d2r == raw_ref), same(r2d == der_ref), same(d2r == raw_ref)
+    o["spRaw"], o["spDer"], o["spRawDer"], o["spDerDer"] = same(True), same(d2r == raw_ref), same(r2d == der_ref), same(True)
+    return {"kind": "sigcodec", "a": {k: case[k] for k in ("curve", "lr", "tr", "ls", "ts")}, "o": o,
+            "x": {"r": hex(r), "s": hex(s), "detail": {}, "pred": case["predParse"], "der": case["der"], "inwin": case["inwin"], "case": case}}
+
+
 # ================================================================================================ lane 2: valid signatures of every profile
 def exec_sigprof(case):
     """A VALID signature with the requested length profile: (r, s) are chosen, the public key is constructed for them
@@ -626,10 +653,16 @@ def replay_flow(job):
     if other is key:
         other = keys[(ki + 1) % len(keys)]
     r_ = rng(PROP, "flow", json.dumps(beh, sort_keys=True), key.name, salt)
-    dflt = measure_default(key)
+    # job["dflt"]: canary only - the default hash is GIVEN (the customary one), SPSDK is not asked, so that the trace never passes through SPSDK
+    dflt = job["dflt"] if "dflt" in job else measure_default(key)
     ev = [{"a": "Key", "prof": key.prof, "xl": key.xl, "yl": key.yl}]
     trace = {"flow": beh["flow"], "kt": kt, "size": size, "kk0": beh["kk0"], "dflt": dflt, "ev": ev, "x": {"key": key.name, "salt": salt, "beh": beh, "notes": []}}
     notes = trace["x"]["notes"]
+    if dflt not in HASHES:
+        # SPSDK refuses to sign without a named hash, or signs so that no supported hash verifies: TLC rejects the key binding (first event,
+        # H.dflt \in Hashes) and the steps after it have no meaning - the executor stays total (a Verify with the "default" hash has nothing to hash with)
+        notes.append("default hash of the key not identifiable: sign() without an algorithm was refused or verifies under no / several supported hashes")
+        return trace
     c = (size + 7) // 8
     # ---- state of the replay
     kk = beh["kk0"]
@@ -986,14 +1019,17 @@ def gen(flow, depth, simulate=None, sim_depth=None, menu="any", pw="all"):
 
 
 def canary(v):
+    """Known-good traces that never pass through SPSDK: every step of the two flows is made by the independent parties (`cryptography`,
+    pure Python), the key's default hash is given (the customary one, not measured on SPSDK) and the codec observation is the reference
+    codec's.  A defect of SPSDK cannot make them unacceptable: whatever the real code does wrong is decided in the main run."""
     key = pool()[("ecc", 256)][0]
-    good_flow = replay_flow({"beh": {"flow": "sig", "kt": "ecc", "size": 256, "kk0": "priv", "hist": [
+    good_flow = replay_flow({"dflt": "sha256", "beh": {"flow": "sig", "kt": "ecc", "size": 256, "kk0": "priv", "hist": [
         {"a": "Sign", "by": "indep", "P": {"hash": "sha256", "pad": "ecdsa", "pre": False, "enc": "der"}},
         {"a": "Reencode", "to": "raw", "via": "indep"},
         {"a": "Verify", "by": "pure", "Q": {"hash": "sha256", "pad": "ecdsa", "pre": True}},
         {"a": "Tamper", "what": "sigbit"},
         {"a": "Verify", "by": "indep", "Q": {"hash": "sha256", "pad": "ecdsa", "pre": False}}]}, "key": 0, "salt": 0})
-    good_key = replay_flow({"beh": {"flow": "key", "kt": "ecc", "size": 256, "kk0": "priv", "hist": [
+    good_key = replay_flow({"dflt": "sha256", "beh": {"flow": "key", "kt": "ecc", "size": 256, "kk0": "priv", "hist": [
         {"a": "Export", "fmt": "PEM", "pwd": "trail-crlf", "el": 0, "by": "indep"},
         {"a": "Parse", "entry": "typed", "given": "none", "by": "indep", "res": "refused"},
         {"a": "Parse", "entry": "typed", "given": "plain", "by": "indep", "res": "refused"},
@@ -1025,7 +1061,7 @@ def canary(v):
         raise Machinery(f"canary (flows) failed: rejected {sorted(rej)}")
     # pure codec: one correct observation, the same with one corrupted field each
     case = {"curve": "secp256r1", "c": 32, "lr": 32, "tr": 1, "ls": 31, "ts": 0, "der": 70, "inwin": True, "predParse": "same", "predVerify": "same"}
-    g = exec_sigcodec(case)
+    g = ref_sigcodec(case)  # the observation a correct codec gives (reference implementation), not SPSDK's
     g["id"] = "good"
     obs = [g]
     for name, field, val in (("bad-derlen", "derLen", 71), ("bad-parse", "pDer", "wrong"), ("bad-prof", "rl", 31), ("bad-sp", "spDer", "unchanged")):
@@ -1036,7 +1072,8 @@ def canary(v):
     rej, _ = tlc.tv("C08", "KeyCodecTrace", obs)
     if set(rej) != {"bad-derlen", "bad-parse", "bad-prof", "bad-sp"}:
         raise Machinery(f"canary (codec) failed: rejected {sorted(rej)} / observation {g['o']}")
-    v.extra["canary"] = "2 good flow traces + 1 good codec observation accepted; 11 + 4 single-field corruptions rejected"
+    v.extra["canary"] = ("2 good flow traces + 1 good codec observation accepted; 11 + 4 single-field corruptions rejected "
+                         "(good traces made by the independent parties / the reference codec only, none passes through SPSDK)")
     _ = key
 
 
